@@ -147,7 +147,7 @@ func ruleCurrentRoundShape(c *Ctx, rule string) {
 type poly map[string]int64 // monomial (sorted leaf names joined by *) -> coefficient; "" is the constant term
 
 func polyConst(k int64) poly { return poly{"": k} }
-func polyLeaf(n string) poly  { return poly{n: 1} }
+func polyLeaf(n string) poly { return poly{n: 1} }
 
 func (p poly) add(q poly, sign int64) poly {
 	out := poly{}
@@ -370,11 +370,12 @@ func ruleTimeOfRoundGuards(c *Ctx, rule string) {
 		// computed return: three guards
 		g1 := dcGuarded(r, DCons{"0", period.Name(), 0}) // period >= 0
 		g2 := condGuarded(r, func(cond ssa.Value, truth bool) bool {
-			b, ok := cond.(*ssa.BinOp)
-			if !ok || truth || b.Op != token.GEQ || b.X != ssa.Value(round) {
+			// round < bound in any spelling
+			lo, hi, strict, ok := ordForm(cond, truth)
+			if !ok || !strict || lo != ssa.Value(round) {
 				return false
 			}
-			sh, ok := stripConv(b.Y).(*ssa.BinOp)
+			sh, ok := stripConv(hi).(*ssa.BinOp)
 			if !ok || sh.Op != token.SHR {
 				return false
 			}
